@@ -1,0 +1,28 @@
+//go:build verif
+// +build verif
+
+package isaacstates
+
+import "github.com/spikeekips/mitum/base"
+
+// constructors of the handover messages for the encode/decode round-trip harness
+
+func VerifHandoverMessageChallengeResponse(id string, point base.StagePoint, ok bool, err error) HandoverMessageChallengeResponse {
+	return newHandoverMessageChallengeResponse(id, point, ok, err)
+}
+
+func VerifHandoverMessageFinish(id string, vp base.INITVoteproof, pr base.ProposalSignFact) HandoverMessageFinish {
+	return newHandoverMessageFinish(id, vp, pr)
+}
+
+func VerifHandoverMessageChallengeStagePoint(id string, point base.StagePoint) HandoverMessageChallengeStagePoint {
+	return newHandoverMessageChallengeStagePoint(id, point)
+}
+
+func VerifHandoverMessageChallengeBlockMap(id string, point base.StagePoint, m base.BlockMap) HandoverMessageChallengeBlockMap {
+	return newHandoverMessageChallengeBlockMap(id, point, m)
+}
+
+func VerifHandoverMessageData(id string, dataType HandoverMessageDataType, i interface{}) HandoverMessageData {
+	return newHandoverMessageData(id, dataType, i)
+}
